@@ -9,6 +9,11 @@ CHECKS = {
    text="Proof: for every finite event set, every two arrival sequences (any permutation, duplicates, independent stores, any Go map iteration order) yield the identical event list, metadata chain, documents and conflicted flag per DID, hence identical Resolve answers and identical DocumentCount/ConflictedCount (resolve_order_independent, stats_order_independent, store_is_fold, merge_deterministic, deactivated_monotone, conflict_resolved_by_covering_update). The model is tied to the source by regenerated facts (which merged fields are sorted, no map range in the writer, conflicted flag read unconditionally) that are Lean proof obligations, and by a line-by-line differential of the compiled model against the real store on all permutations of generated event sets.",
    note="Trusted: Lean kernel; extractor; harness/canonicaliser; go-did JSON, SHA-256, bbolt atomicity are modelled contracts.",
    ref="5 C10"),
+ "C09": dict(
+   technique="Lean 4 theorems (exact acceptance characterisation, inertness, induction over histories, depth-bounded controller recursion) over a hand-written model of ambassador/validators/resolver on top of the C10 store model; regenerated go/ast facts; history differential against the real ambassador + didstore + resolvers with really signed transactions",
+   text="Proof: callback_accepts_iff characterises acceptance exactly; accepted_create_sound / accepted_update_sound (+ *_signed_by_* under injective thumbprints) give the authorisation predicate of the property; rejected_inert and resolvable_only_if_accepted (induction over all histories) show a rejected pair never becomes resolvable nor changes authorised keys; controller_chain_bounded / controller_cycle_refused / deactivated_controller_rejected / removed_key_rejected; validator_rules_sound_complete + each_necessary. The literal validator statement (validator_rules_Stmt) is proved FALSE of the code by witness for verification methods embedded in relationships (open known finding C09:accepted-embedded-method-violating-nuts-rules, replayed on the real code). Tie: 13 fact_* obligations over regenerated facts and a delivery-by-delivery differential (outcome class, raw bbolt digest, every Resolve/key-resolver answer) plus implementation-only oracles (rejected => database byte-identical, accepted => well-formed / authorised).",
+   note="Trusted: Lean kernel; extractor; harness. Contracts (modelled, not verified): go-did parsing and W3C validator flags, JWK thumbprints, JWS verification, bbolt atomicity; only JsonWebKey2020 methods modelled. Authorisation is relative to the version the prevs select (forks from older versions are merged as conflicts by design, C10). Concurrent callbacks not modelled.",
+   ref="5 C09"),
 }
 def main():
     checks = []
